@@ -40,8 +40,8 @@ HB0 == [vc |-> [c \in CtxIds |-> [d \in CtxIds |-> IF c = d THEN 1 ELSE 0]],
         frel |-> [c \in CtxIds |-> Zero], pacq |-> [c \in CtxIds |-> Zero],
         race |-> ""]
 
-Get(f, k, dflt) == IF k \in DOMAIN f THEN f[k] ELSE dflt
-Put(f, k, v) == (k :> v) @@ f
+FGet(f, k, dflt) == IF k \in DOMAIN f THEN f[k] ELSE dflt
+FPut(f, k, v) == (k :> v) @@ f
 
 IsAcq(mo) == mo \in {1, 2, 4, 5}
 IsRel(mo) == mo \in {3, 4, 5}
@@ -50,14 +50,14 @@ Flag(h, msg) == IF h.race = "" THEN [h EXCEPT !.race = msg] ELSE h
 
 (* atomic operation by context c on location loc; kind in {"load","store","rmw"} *)
 AtomicOp(h, c, loc, kind, mo) ==
-  LET published == Get(h.rel, loc, Zero)
+  LET published == FGet(h.rel, loc, Zero)
       \* acquire side
       vc1 == IF kind \in {"load", "rmw"} /\ IsAcq(mo) THEN Join(h.vc[c], published) ELSE h.vc[c]
       pacq1 == IF kind \in {"load", "rmw"} /\ ~IsAcq(mo) THEN Join(h.pacq[c], published) ELSE h.pacq[c]
       \* release side
       mine == IF IsRel(mo) THEN vc1 ELSE h.frel[c]      \* relaxed store after a release fence publishes the fence clock
-      rel1 == IF kind = "store" THEN Put(h.rel, loc, mine)
-              ELSE IF kind = "rmw" THEN Put(h.rel, loc, Join(published, mine))
+      rel1 == IF kind = "store" THEN FPut(h.rel, loc, mine)
+              ELSE IF kind = "rmw" THEN FPut(h.rel, loc, Join(published, mine))
               ELSE h.rel
       vc2 == IF kind \in {"store", "rmw"} THEN [vc1 EXCEPT ![c] = @ + 1] ELSE vc1
   IN [h EXCEPT !.vc[c] = vc2, !.rel = rel1, !.pacq[c] = pacq1]
@@ -68,18 +68,18 @@ ThreadFence(h, c, mo) ==
   IN IF IsRel(mo) THEN [h1 EXCEPT !.frel[c] = vc1, !.vc[c] = [vc1 EXCEPT ![c] = @ + 1]] ELSE h1
 
 PlainWrite(h, c, loc) ==
-  LET w == Get(h.lw, loc, <<c, 0>>)
-      r == Get(h.rd, loc, Zero)
+  LET w == FGet(h.lw, loc, <<c, 0>>)
+      r == FGet(h.rd, loc, Zero)
       okW == w[1] = c \/ w[2] <= h.vc[c][w[1]]
       okR == \A d \in CtxIds : d = c \/ r[d] <= h.vc[c][d]
-      h1 == [h EXCEPT !.lw = Put(h.lw, loc, <<c, h.vc[c][c]>>), !.rd = Put(h.rd, loc, Zero)]
+      h1 == [h EXCEPT !.lw = FPut(h.lw, loc, <<c, h.vc[c][c]>>), !.rd = FPut(h.rd, loc, Zero)]
   IN IF okW /\ okR THEN h1 ELSE Flag(h1, "race: plain write not ordered after an earlier access")
 
 PlainRead(h, c, loc) ==
-  LET w == Get(h.lw, loc, <<c, 0>>)
-      r == Get(h.rd, loc, Zero)
+  LET w == FGet(h.lw, loc, <<c, 0>>)
+      r == FGet(h.rd, loc, Zero)
       okW == w[1] = c \/ w[2] <= h.vc[c][w[1]]
-      h1 == [h EXCEPT !.rd = Put(h.rd, loc, [r EXCEPT ![c] = h.vc[c][c]])]
+      h1 == [h EXCEPT !.rd = FPut(h.rd, loc, [r EXCEPT ![c] = h.vc[c][c]])]
   IN IF okW THEN h1 ELSE Flag(h1, "race: plain read not ordered after the last write")
 
 KindOf(op) == IF op = "load" THEN "load" ELSE IF op = "store" THEN "store" ELSE "rmw"
